@@ -109,6 +109,7 @@ type Config struct {
 	Trace       bool
 	MapOrderAll bool
 	Sites       bool
+	NoIfConv    bool
 }
 
 type Interp struct {
@@ -924,6 +925,9 @@ func (in *Interp) exec(th *Thread, f *Frame, instr ssa.Instruction) {
 		if c.IsConst() {
 			dir = c.op == OpTrue
 		} else {
+			if !in.cfg.NoIfConv && in.tryIfConvert(f, c) {
+				return
+			}
 			if f.symIter == nil {
 				f.symIter = map[ssa.Instruction]int{}
 			}
